@@ -282,6 +282,9 @@ func (C17) Execute(sc *core.Scenario, keepLog bool) *core.Result {
 					continue
 				}
 				parent := fmt.Sprintf("p%d", a.Arg(1)%3)
+				if parent == box.Name {
+					continue // a mailbox cannot move below itself (refused whatever the limits)
+				}
 				if sc.C("deepcreate") == 0 && e.R.Boxes[parent] == nil {
 					continue
 				}
